@@ -186,6 +186,11 @@ pub fn context_violation(n: &Node, ctx: Ctx, top_level: bool) -> Option<String> 
             return Some("or_i-pre-segwit".into());
         }
     }
+    // lock values: 1 ..= 2^31-1 (0 is no lock; bit 31 disables BIP68 / is not a valid nLockTime
+    // script number)
+    if has(n, &|x| matches!(x, Node::After(v) | Node::Older(v) if *v == 0 || *v >= 0x8000_0000)) {
+        return Some("lock-out-of-range".into());
+    }
     if n.height() > 402 {
         return Some("too-deep".into());
     }
